@@ -564,4 +564,10 @@ def gRun (g : SObj) : List GOp → List (Outcome × List Call × NameObs)
     let r := gStep g op
     (r.2.1, r.2.2, gObserve r.1) :: gRun r.1 ops
 
+/-- §15.2.3.2-15.2.3.14 step 1: "If Type(O) is not Object throw a TypeError exception" (§15.2.3.5: "not Object or Null") -/
+def objFnPrim (f : ObjFn) (a : PrimArg) : PrimRes :=
+  match f, a with
+  | .create, .null => .object
+  | _, _ => .typeError
+
 end OttoVerif.C07.Spec
